@@ -262,6 +262,39 @@ func gitExec(c *Ctx, op string) {
 				}
 			}
 		}
+		// ---- the id is a hex number: spelled in upper or mixed case it names the same commit, and the same tree comes out
+		if up := strings.ToUpper(target); up != target {
+			mixed := []byte(target)
+			for i := range mixed {
+				if i%2 == 0 && mixed[i] >= 'a' && mixed[i] <= 'f' {
+					mixed[i] -= 32
+				}
+			}
+			for k, spell := range []string{up, string(mixed)} {
+				d := filepath.Join(base, fmt.Sprintf("dst-case%d", k))
+				_, cerr, cpan := safeCall(func() (api.WareID, error) {
+					return gittrans.Unpack(context.Background(), api.WareID{Type: "git", Hash: spell}, d, uf, rio.Placement_Direct, wh, rio.Monitor{})
+				})
+				switch {
+				case cpan != "":
+					c.PropFail("git-panic", "commit id spelled "+spell+": "+cpan, op)
+				case cerr != nil:
+					c.PropFail("git-unpack-failed", "the commit id spelled in another letter case ("+spell+") is refused: "+catOf(cerr)+": "+cerr.Error(), op)
+				default:
+					sn2, _ := Snapshot(d)
+					var l2 []string
+					for _, e := range sn2 {
+						l2 = append(l2, fmt.Sprintf("%s|%c|%d|%d|%d|%d|%s", hx(e.Name), e.Kind, permsOf(e), e.Uid, e.Gid, e.Sec, hx(e.Link)))
+					}
+					sort.Strings(l2)
+					if strings.Join(l2, ",") != res {
+						c.PropFail("git-content", "the commit id spelled "+spell+" unpacks to another tree than the lower-case spelling", op)
+					}
+				}
+				rmrf(d)
+			}
+			c.H("git-idcase")
+		}
 		// ---- C19 oracle, from git's own view of the tree (independent of the model)
 		want := map[string][3]string{}
 		for _, e := range es {
